@@ -141,3 +141,28 @@ func verifC12RData() {
 	vAssert(len(m.Answer) == 1 && m.Answer[0].Type == typ, "one answer of the given type")
 	vCheckDecoded(m, len(b))
 }
+
+// verifC12Cycles: compression-pointer cycles that live in bytes which are never
+// decoded as the start of a name themselves: the message ID is symbolic (so a
+// pointer into the header can meet another pointer there) and an opaque RDATA
+// area in front of a later owner name holds symbolic bytes.
+func verifC12Cycles() {
+	id := vBytes(2)
+	var b []byte
+	if vBool() {
+		// one question; its name may point into the header
+		b = append(append(id, 0x01, 0x00, 0, 1, 0, 0, 0, 0, 0, 0), vBytes(vInt(0, 4))...)
+	} else {
+		// answer 1: root owner, unknown type, 4 opaque RDATA bytes (offsets 23..26);
+		// answer 2: owner name of <= 3 symbolic bytes that may point into them
+		rr1 := append([]byte{0, 0x03, 0xe7, 0, 1, 0, 0, 0, 0, 0, 4}, vBytes(4)...)
+		b = append(append(append(id, 0x81, 0x80, 0, 0, 0, 2, 0, 0, 0, 0), rr1...), vBytes(vInt(0, 3))...)
+	}
+	m, err := DecodeMessage(b)
+	if err != nil {
+		vReach("rejected")
+		return
+	}
+	vReach("decoded")
+	vCheckDecoded(m, len(b))
+}
